@@ -272,6 +272,13 @@ pub fn bilinear_case(out: &mut Out, p: &Pos, depth: u8) {
   let nm = match catch(|| l.neighbours(h, true)) { Some(m) => m, None => return };
   let allowed: Vec<u64> = nm.values_vec();
   if a.iter().any(|x| !allowed.contains(&x.0)) { out.violation("C19:cells", inp.clone(), "the cell or its neighbours".into(), format!("{:?}", a.iter().map(|x| x.0).collect::<Vec<_>>())); }
+  // the same requirement without the crate's own neighbour code: every returned cell is `h` or shares a vertex with it
+  let nh = 12u64 << (2 * depth as u32);
+  for x in a.iter() {
+    if x.0 == h { continue; }
+    let ok = x.0 < nh && catch(|| crate::c04::shares_vertex(l, depth, h, x.0)).unwrap_or(false);
+    if !ok { out.violation("C19:cell-not-adjacent", inp.clone(), format!("cell {} or a cell sharing a vertex with it", h), x.0.to_string()); break; }
+  }
   if !a.iter().any(|x| x.0 == h) { out.violation("C19:cell-missing", inp.clone(), h.to_string(), format!("{:?}", a.iter().map(|x| x.0).collect::<Vec<_>>())); }
   if dx == 0.5 && dy == 0.5 {
     let wh: f64 = a.iter().filter(|x| x.0 == h).map(|x| x.1).sum();
